@@ -113,6 +113,31 @@ MATRIX = {
 }
 
 
+def variants(src):
+    """Meaning-preserving respellings of a program: its statements in reverse order and rotated by one, and every
+    declared name and parameter consistently renamed. The verdict must not change (the statement's
+    'independent of the order of declarations and of the spelling of identifiers')."""
+    stmts = [x for x in re.split(r"(?<=;)\n", src) if x.strip()]
+    out = {}
+    if len(stmts) > 1:
+        out["reversed"] = "\n".join(reversed(stmts)) + "\n"
+        out["rotated"] = "\n".join(stmts[1:] + stmts[:1]) + "\n"
+    names = set()
+    for m in re.finditer(r"\blet\s+(@?[A-Za-z_][A-Za-z0-9_]*)((?:\s+[A-Za-z_][A-Za-z0-9_]*)*)\s*=", src):
+        names.add(m.group(1))
+        names.update(m.group(2).split())
+    ren = src
+    for nm in sorted(names, key=len, reverse=True):
+        new = ("@zq_" + nm[1:] + "9") if nm.startswith("@") else ("zq_" + nm + "9")
+        ren = re.sub(r"(?<![A-Za-z0-9_@'$-])%s(?![A-Za-z0-9_$-])" % re.escape(nm), new, ren)
+    if names:
+        out["renamed"] = ren
+        if len(stmts) > 1:
+            rst = [x for x in re.split(r"(?<=;)\n", ren) if x.strip()]
+            out["renamed+reversed"] = "\n".join(reversed(rst)) + "\n"
+    return out
+
+
 def run_matrix(names=None, tag="matrix"):
     cli = build_cli()
     rdir = new_replay_dir("C07", tag)
@@ -124,6 +149,13 @@ def run_matrix(names=None, tag="matrix"):
         detail[n] = {"rc": res["rc"], "want": want, "tail": res["out"][-120:]}
         if res["rc"] != want:
             mism.append("%s: exit %s, expected %s" % (n, res["rc"], want))
+        vs = variants(src)
+        detail[n]["variants"] = {}
+        for vn, vsrc in vs.items():
+            r2 = run_cli(cli, {"main.oal": vsrc}, workdir=os.path.join(rdir, n + "." + vn.replace("+", "-")), timeout=30)
+            detail[n]["variants"][vn] = r2["rc"]
+            if r2["rc"] != res["rc"]:
+                mism.append("%s: verdict changes under '%s' (exit %s -> %s)" % (n, vn, res["rc"], r2["rc"]))
     with open(os.path.join(rdir, "cmd"), "w") as f:
         f.write("#!/bin/sh\ncd /verif && exec ./check C07 --replay %s\n" % rdir)
     return mism, rdir, detail
@@ -278,7 +310,7 @@ def check():
                 o.inconc("UNCONFIRMED: a step lemma fails (%s) but the real oal-cli gives the expected verdict on all %d matrix programs" %
                          ("; ".join(b[1] for b in bad[:3]), len(detail)))
         elif mism:
-            o.inconc("translator validation failed: real oal-cli deviates (%s) although every lemma holds" % mism[:4])
+            o.oracle_only("real oal-cli deviates (%s) although every lemma holds" % mism[:4], rdir)
     return o.finish()
 
 
